@@ -43,6 +43,13 @@ def configs(tier, seed):
         out.append({"seed": 100 * seed + 50, "model": "constrained", "kwargs": dict(base)})
         out.append({"seed": 100 * seed + 51, "model": "gaussprior", "kwargs": {**base, "max_iteration": 4}})
         out.append({"seed": 100 * seed + 52, "model": "gaussprior", "kwargs": {**base, "draw_iid_live": False, "strict_threshold": True}})
+        # checkpoint/resume cycles (the process dies right after the checkpoint of the listed iterations): the restored
+        # stores are checked before the resumed sampler does anything, then after every further iteration
+        out.append({"seed": 100 * seed + 60, "kwargs": {**base, "max_iteration": 4}, "resume_after": [2]})
+        out.append({"seed": 100 * seed + 61, "model": "gaussprior", "resume_after": [1, 3],
+                    "kwargs": {**base, "max_iteration": 4, "save_log_q": True, "strict_threshold": True}})
+        # more samples in one store than any internal batch size of the density evaluation
+        out.append({"seed": 100 * seed + 70, "kwargs": {**base, "nlive": 26000, "max_iteration": 1}, "hang_after": 900})
     else:
         i = 0
         for st, ra, dc, iid, rp in itertools.product([False, True], [False, True], [True, False], [True, False],
@@ -51,6 +58,13 @@ def configs(tier, seed):
             kw = {**base, "nlive": 80, "max_iteration": 5, "min_samples": 30, "strict_threshold": st,
                   "replace_all": ra, "draw_constant": dc, "draw_iid_live": iid, "reparameterisation": rp}
             out.append({"seed": 100 * seed + i, "kwargs": kw, "model": ["uniform", "constrained", "gaussprior"][i % 3]})
+        for j, (ra, slq, iid) in enumerate(itertools.product([[2], [1, 2], [1, 3, 4]], [False, True], [True, False])):
+            out.append({"seed": 100 * seed + 60 + j, "model": ["uniform", "constrained", "gaussprior"][j % 3], "resume_after": ra,
+                        "kwargs": {**base, "nlive": 80, "max_iteration": 5, "min_samples": 30, "save_log_q": slq,
+                                   "draw_iid_live": iid, "reparameterisation": [None, "logit"][j % 2]}})
+        for j, nl in enumerate((26000, 61000)):
+            out.append({"seed": 100 * seed + 90 + j, "kwargs": {**base, "nlive": nl, "max_iteration": 1 + j,
+                                                               "draw_iid_live": j == 0}, "hang_after": 1500})
     return out
 
 
@@ -98,7 +112,7 @@ def run_one(chk, i, cfg):
         return {"error": "child failed", "trace": (err or out)[-1500:]}
 
 
-def check_snapshot(chk, cfg, snap, lits, wlits, K, rng):
+def check_snapshot(chk, cfg, snap, lits, wlits, K, rng, recomputed=False):
     counts = [snap["counts"][k] for k in sorted(snap["counts"], key=int)]
     weights = [snap["weights"][k] for k in sorted(snap["weights"], key=int)]
     total = sum(counts)
@@ -111,8 +125,14 @@ def check_snapshot(chk, cfg, snap, lits, wlits, K, rng):
     wlits.append(cT(cL(map(cN, counts)), cL(dy(w) for w in weights), dy(2.0 ** -50)))
     for st in snap["stores"]:
         rows = st["rows"]
-        if st["store"] == "train" and len(rows) != total:
-            chk.fail("C03:counts", f"{len(rows)} stored samples but counts sum to {total}", rep({"store": st["store"]}))
+        if st["store"] == "train" and st.get("n", len(rows)) != total:
+            chk.fail("C03:counts", f"{st.get('n', len(rows))} stored samples but counts sum to {total}", rep({"store": st["store"]}))
+        if st.get("vec"):
+            chk.evaluations += st["vec"]["n"] - len(rows)
+            chk.count("rows_checked_vectorised", st["vec"]["n"])
+            if st["vec"]["n_bad"]:
+                chk.fail("C03:store-vector", f"{st['vec']['n_bad']} of {st['vec']['n']} rows of the {st['store']} store fail the row clauses "
+                         f"(first at {st['vec']['first_bad']})", rep({"store": st["store"], "vec": st["vec"]}))
         for r in rows:
             chk.evaluations += 1
             key = None
@@ -127,7 +147,9 @@ def check_snapshot(chk, cfg, snap, lits, wlits, K, rng):
             else:
                 mx = max(q + math.log(w) for q, w in zip(r["lq"], weights) if w > 0 and q > -INF)
                 lse = mx + math.log(sum(w * math.exp(q - (mx)) for q, w in zip(r["lq"], weights) if q > -INF))
-                if abs(lse - r["logQ"]) > 1e-9 * max(1.0, abs(lse)):
+                # after a resume without save_log_q the rows are RE-EVALUATED float32 flows while logQ is the pickled value:
+                # until the next iteration recomputes logQ from the rows they agree to float32 accuracy only
+                if abs(lse - r["logQ"]) > (2e-5 if recomputed else 1e-9) * max(1.0, abs(lse)):
                     key, what = "C03:logQ", f"stored logQ {r['logQ']} != log-mixture {lse} of its row with weights {weights}"
                 elif abs(r["logW"] - (r["logU"] - r["logQ"])) > 1e-12 * max(1.0, abs(r["logW"])):
                     key, what = "C03:logW", f"stored logW {r['logW']} != logU - logQ = {r['logU'] - r['logQ']}"
@@ -140,7 +162,7 @@ def check_snapshot(chk, cfg, snap, lits, wlits, K, rng):
         for r in pick:
             if len(r["lq"]) != len(counts) or r["lq"][0] == -INF or not all(map(math.isfinite, (r["logQ"], r["logU"], r["logW"]))):
                 continue
-            tq = pow2_ge(2.0 ** -30 * max(1.0, abs(r["logQ"])))
+            tq = pow2_ge(2.0 ** (-15 if recomputed else -30) * max(1.0, abs(r["logQ"])))
             tw = pow2_ge(2.0 ** -45 * max(1.0, abs(r["logW"])))
             lits.append(cT(cL(map(cN, counts)), cL(odyo(q) for q in r["lq"]), dy(r["logQ"]), dy(r["logU"]), dy(r["logW"]),
                            dy(tq), dy(tw)))
@@ -179,7 +201,7 @@ def run(chk):
         "re-evaluating every saved proposal at every stored sample (compute_meta_proposal_samples) to float32 accuracy",
         "oracle: the user's likelihood; validated by re-evaluating the model at the physical point of every stored sample",
         "Interval library operators (I.exp, I.ln, I.mul, I.div, I.add, I.sub) through Lib/Enclose.v",
-        "tolerances: |logQ - mixture| <= 2^-30 max(1,|logQ|), |logW - (logU - logQ)| <= 2^-45 max(1,|logW|), |w_j - c_j/total| <= 2^-50",
+        "tolerances: |logQ - mixture| <= 2^-30 max(1,|logQ|) (2^-15 between a resume that re-evaluates the float32 flows and the next iteration), |logW - (logU - logQ)| <= 2^-45 max(1,|logW|), |w_j - c_j/total| <= 2^-50",
     ]
     chk.static_props(["C03"], ["C03_run"])
     orders = translate(chk)
@@ -199,8 +221,14 @@ def run(chk):
         chk.traces += 1
         chk.count("runs")
         chk.count("snapshots", len(res["snaps"]))
+        recomputed = False
         for snap in res["snaps"]:
-            check_snapshot(chk, cfg, snap, lits, wlits, K, rng)
+            if snap["where"] == "resumed":
+                recomputed = not cfg["kwargs"].get("save_log_q", False)
+                chk.count("resumed_snapshots")
+            elif snap["where"] == "update_evidence":
+                recomputed = False
+            check_snapshot(chk, cfg, snap, lits, wlits, K, rng, recomputed)
         if len(chk.samples) < 3:
             s = res["snaps"][-1]
             chk.sample({"config": cfg, "where": s["where"], "counts": s["counts"], "weights": s["weights"],
@@ -241,8 +269,13 @@ def replay(data):
 
     fk = Fake()
     import random
+    recomputed = False
     for snap in res["snaps"]:
-        check_snapshot(fk, cfg, snap, [], [], 0, random.Random(0))
+        if snap["where"] == "resumed":
+            recomputed = not cfg["kwargs"].get("save_log_q", False)
+        elif snap["where"] == "update_evidence":
+            recomputed = False
+        check_snapshot(fk, cfg, snap, [], [], 0, random.Random(0), recomputed)
     for k, w in fk.fails[:5]:
         print(k, w[:300])
     if fk.fails:
